@@ -118,7 +118,10 @@ class _ParseState:
                 return existing
         count = len(self.seen[name])
         if count:
-            object_type.__name__ = name + f"_{count}"
+            while f"{name}_{count}" in self.seen:
+                count += 1
+            object_type.__name__ = f"{name}_{count}"
+            self.seen[object_type.__name__].append(object_type)
         self.seen[name].append(object_type)
         return object_type
 
@@ -337,9 +340,15 @@ def _parse_object(
     title = schema.get("title", schema.get("_x_autotitle"))
     if not title:
         raise SchemaParseError.missing_title(schema)
-    title = _title_format(title) or _title_format(
-        schema.get("_x_autotitle", "")
-    )
+    # Keep the numeric suffix of de-duplicated class names (see `dedupe`), so
+    # that serialized documents are parsed back to the same class names.
+    base, _, suffix = title.rpartition("_")
+    if suffix.isdigit() and _title_format(base):
+        title = f"{_title_format(base)}_{suffix}"
+    else:
+        title = _title_format(title) or _title_format(
+            schema.get("_x_autotitle", "")
+        )
     if not title:
         raise SchemaParseError.missing_title(schema)
     if title[0].isdigit():
